@@ -80,13 +80,14 @@ type HarnessRun struct {
 	Queries, Sat, Unsat, Unknown int
 	SolveTime                    time.Duration
 	Funcs                        map[string]bool
+	DepGlobals                   map[string]bool
 	Wall                         time.Duration
 	infeasible                   int
 }
 
 func newHarnessRun(pkg, name string) *HarnessRun {
 	return &HarnessRun{Name: name, Pkg: pkg, AssertsChecked: map[string]int{}, AssertsTrivial: map[string]int{}, Reached: map[string]int{},
-		violCount: map[string]int{}, witnessFor: map[string]bool{}, Aborts: map[string]int{}, Panics: map[string]int{}, Funcs: map[string]bool{}}
+		violCount: map[string]int{}, witnessFor: map[string]bool{}, Aborts: map[string]int{}, Panics: map[string]int{}, Funcs: map[string]bool{}, DepGlobals: map[string]bool{}}
 }
 
 // pathState: per-path harness bookkeeping (merged into HarnessRun at path end)
@@ -247,6 +248,9 @@ func runPath(L *Loaded, init *InitState, fn *ssa.Function, cfg *RunConfig, solve
 	hr.StoreOps += e.StoreOps
 	for f := range e.Funcs {
 		hr.Funcs[f] = true
+	}
+	for g := range e.DepGlobals {
+		hr.DepGlobals[g] = true
 	}
 	hr.mu.Unlock()
 	return e.pending
@@ -763,6 +767,16 @@ func (hr *HarnessRun) Summary() string {
 	for _, k := range keys(hr.Aborts) {
 		fmt.Fprintf(&sb, "  ABORT x%d %s\n", hr.Aborts[k], k)
 	}
+	for _, k := range func() []string {
+		var ks []string
+		for k := range hr.DepGlobals {
+			ks = append(ks, k)
+		}
+		sort.Strings(ks)
+		return ks
+	}() {
+		fmt.Fprintf(&sb, "  dep-global read with defaulted value: %s\n", k)
+	}
 	for _, v := range hr.Violations {
 		fmt.Fprintf(&sb, "  VIOLATION-CANDIDATE %s [%s] %s\n", v.Label, v.Kind, v.Detail)
 	}
@@ -838,7 +852,12 @@ func defaultSolver() string {
 }
 
 func init() {
-	intrinsics[vrtKey("Log")] = func(e *Exec, fn *ssa.Function, a []Value) Value { return nil }
+	intrinsics[vrtKey("Log")] = func(e *Exec, fn *ssa.Function, a []Value) Value {
+		if os.Getenv("GOSYM_DEBUG") != "" {
+			fmt.Fprintf(os.Stderr, "LOG %s = %v\n", strOrSym(a[1]), e.fmtArg(a[2]))
+		}
+		return nil
+	}
 }
 
 func init() {
